@@ -53,6 +53,11 @@ func init() {
 				p := concParams{Label: "clock‖" + op, Cfg: cfg, Setup: []string{"set 1"}, Threads: [][]string{{"adv 100"}, {op, "getq 1"}}, Oracles: []string{"expired"}}
 				jobs = append(jobs, &Job{Scenario: "cache.conc", Params: js(p), PB: 2, Coarse: true, Shards: 1, BudgetS: 30, Need: []string{"seq-equiv-checked"}})
 			}
+			// every operation on an expired-but-unswept key while a load of that key is in flight
+			for _, op := range []string{"cc 1", "ciac 1", "cipc 1", "get 1", "getq 1", "gete 1", "inv 1", "sea 1 50"} {
+				p := concParams{Label: "load‖" + op, Cfg: cfg, Setup: []string{"set 1", "adv 100"}, Threads: [][]string{{"load 1 val"}, {op, "getq 1"}}, Oracles: []string{"expired-during-load"}}
+				jobs = append(jobs, &Job{Scenario: "cache.conc", Params: js(p), PB: 12, Coarse: true, Shards: 1, BudgetS: 30, Need: []string{"ops-on-expired-during-load"}})
+			}
 		}
 		return jobs
 	}
@@ -259,6 +264,11 @@ func init() {
 						a = append(a, fmt.Sprintf("set %d 1 ttl=%d", k, t))
 					}
 					a = append(a, fmt.Sprintf("get %d", k), fmt.Sprintf("inv %d", k), fmt.Sprintf("sea %d %d", k, 70*tickNs))
+					if kind == "custom" {
+						// a calculator that returns a non-positive duration creates an entry without a deadline;
+						// a later per-entry deadline must still be scheduled
+						a = append(a, fmt.Sprintf("set %d 1 ttl=-1", k), fmt.Sprintf("sea %d %d", k, 2*tickNs))
+					}
 				}
 				for _, d := range advs {
 					a = append(a, fmt.Sprintf("adv %d", d))
@@ -270,6 +280,24 @@ func init() {
 				}
 				jobs = append(jobs, seqJob(seqParams{Cfg: cfg, Alphabet: a, Kinds: kinds}, depth, 4, budget, "cleanups-with-expiry"))
 			}
+		}
+		// a deadline-extending read whose read-buffer event is dropped (ring of 4 in the small-scope build, the 5th
+		// read is refused): the timer stays in its old bucket and must be re-filed when that bucket is swept
+		for _, kind := range []string{"accessing", "custom"} {
+			cfg := CacheCfg{Expiry: kind, TTL: 20 * tickNs, ClockStart: 1 << 40}
+			ext := "get 1"
+			if kind == "custom" {
+				ext = fmt.Sprintf("sea 1 %d", 20*tickNs)
+			}
+			pre := []string{"set 1", fmt.Sprintf("set 2 1 ttl=%d", 1000*tickNs), "get 2", "get 2", "get 2", "get 2", fmt.Sprintf("adv %d", 5*tickNs), ext}
+			a := []string{fmt.Sprintf("adv %d", tickNs), fmt.Sprintf("adv %d", 5*tickNs), fmt.Sprintf("adv %d", 17*tickNs), "cleanup", "get 2", ext}
+			depth := 4
+			if thorough {
+				depth = 6
+			}
+			j := seqJob(seqParams{Cfg: cfg, Alphabet: a, Kinds: kinds, Prefixes: [][]string{pre}}, depth, 2, 120, "cleanups-with-expiry", "read-buffer-saturated")
+			j.Variant = "small"
+			jobs = append(jobs, j)
 		}
 		return jobs
 	}
